@@ -128,10 +128,18 @@ pub fn k_c20_draw_integers() {
     vreach!("C20.draw_integers.reach");
 }
 
-//# harness: fn=DefaultRandomCoin::draw (f64 elements); label=bounded(valid element within the first two digests); tier=quick; timeout=400
+/// stands for f64 `BaseElement::new` (an injective tag of its argument): "the drawn element is
+/// new(le64(digest))" is then checked without asking SAT to multiply; `new` itself (canonical
+/// result, as_int(new(v)) == v) is the Verus unit f64_core
+fn stub_new(value: u64) -> F64 {
+    F64::from_mont(value.rotate_left(17) ^ 0x5bd1_e995_9e37_79b9)
+}
+
+//# harness: fn=DefaultRandomCoin::draw (f64 elements); label=bounded(valid element within the first two digests); tier=quick; timeout=400; replay=no
 #[cfg_attr(kani, kani::proof)]
 #[cfg_attr(kani, kani::unwind(10))]
 #[cfg_attr(kani, kani::stub(alloc::fmt::format, vs::fake_format))]
+#[cfg_attr(kani, kani::stub(winter_math::fields::f64::BaseElement::new, stub_new))]
 pub fn k_c20_draw_element() {
     mk::reset();
     mk::small_from(1);
@@ -146,7 +154,8 @@ pub fn k_c20_draw_element() {
             let used = u64::from_le_bytes(mk::call(k - 1).out);
             let first = u64::from_le_bytes(mk::call(0).out);
             vcheck!("C20.draw.rejection_sampling", (k == 1) == (first < 0xffffffff00000001));
-            vcheck!("C20.draw.valid_element", e.inner() < 0xffffffff00000001);
+            // drawn elements are valid: the decoder accepted the digest value (< M) and returns new(value)
+            vcheck!("C20.draw.accepted_value_below_modulus", used < 0xffffffff00000001);
             vcheck!("C20.draw.next_args", mk::call(k - 1).kind == mk::K_MERGE_INT && mk::call(k - 1).a == s0
                 && mk::call(k - 1).int == c0 + k as u64);
             // the element is new(le64(first admissible digest)); as_int(new(v)) == v is the Verus
